@@ -3023,6 +3023,15 @@ def transform_compressible(items, constants, labels):
 
 
 def transform_pseudo_instructions(items, constants, labels):
+    # behavior is "offset" for jumps / branches to labels, plain numbers are
+    # taken as the offset itself (same as the b-type / j-type instructions)
+    def parse_reference(reference, line):
+        if is_int(reference):
+            imm = [reference]
+        else:
+            imm = ['%offset', reference]
+        return parse_immediate(imm, line)
+
     position = 0
     new_items = []
     for item in items:
@@ -3084,32 +3093,27 @@ def transform_pseudo_instructions(items, constants, labels):
         elif item.name in ['beqz', 'bnez', 'bgez', 'bltz']:
             names = {'beqz': 'beq', 'bnez': 'bne', 'bgez': 'bge', 'bltz': 'blt'}
             rs, reference = item.args
-            imm = ['%offset', reference]
-            imm = parse_immediate(imm, item.line)
+            imm = parse_reference(reference, item.line)
             inst = BTypeInstruction(item.line, names[item.name], rs1=rs, rs2='x0', imm=imm)
         elif item.name in ['blez', 'bgtz']:
             names = {'blez': 'bge', 'bgtz': 'blt'}
             rs, reference = item.args
-            imm = ['%offset', reference]
-            imm = parse_immediate(imm, item.line)
+            imm = parse_reference(reference, item.line)
             inst = BTypeInstruction(item.line, names[item.name], rs1='x0', rs2=rs, imm=imm)
 
         elif item.name in ['bgt', 'ble', 'bgtu', 'bleu']:
             names = {'bgt': 'blt', 'ble': 'bge', 'bgtu': 'bltu', 'bleu': 'bgeu'}
             rs, rt, reference = item.args
-            imm = ['%offset', reference]
-            imm = parse_immediate(imm, item.line)
+            imm = parse_reference(reference, item.line)
             inst = BTypeInstruction(item.line, names[item.name], rs1=rt, rs2=rs, imm=imm)
 
         elif item.name == 'j':
             reference, = item.args
-            imm = ['%offset', reference]
-            imm = parse_immediate(imm, item.line)
+            imm = parse_reference(reference, item.line)
             inst = JTypeInstruction(item.line, 'jal', rd='x0', imm=imm)
         elif item.name == 'jal':
             reference, = item.args
-            imm = ['%offset', reference]
-            imm = parse_immediate(imm, item.line)
+            imm = parse_reference(reference, item.line)
             inst = JTypeInstruction(item.line, 'jal', rd='x1', imm=imm)
         elif item.name == 'jr':
             rs, = item.args
@@ -3121,8 +3125,7 @@ def transform_pseudo_instructions(items, constants, labels):
             inst = ITypeInstruction(item.line, 'jalr', rd='x0', rs1='x1', imm=Arithmetic('0'))
         elif item.name == 'call':
             reference, = item.args
-            imm = ['%offset', reference]
-            imm = parse_immediate(imm, item.line)
+            imm = parse_reference(reference, item.line)
             # check if eligible for single inst expansion
             env = ChainMap(constants, labels)
             value = imm.eval(position, env, item.line)
@@ -3142,8 +3145,7 @@ def transform_pseudo_instructions(items, constants, labels):
                 inst = ITypeInstruction(item.line, 'jalr', rd='x1', rs1='x1', imm=Lo(imm), is_auipc_jump=True)
         elif item.name == 'tail':
             reference, = item.args
-            imm = ['%offset', reference]
-            imm = parse_immediate(imm, item.line)
+            imm = parse_reference(reference, item.line)
             # check if eligible for single inst expansion
             env = ChainMap(constants, labels)
             value = imm.eval(position, env, item.line)
